@@ -25,7 +25,7 @@ FILES = {
     "cmdline.py": ["C14", "C07"],
     "datatypes.py": ["C09", "C02"],
     "url.py": ["C18"],
-    "schemaless.py": ["C17"],
+    "schemaless.py": ["C17", "C03"],
     "validator.py": ["C07"],
     "__init__.py": ["C08", "C04", "C20", "C07"],
     "components/logger/logger.py": ["C20"],
